@@ -9,7 +9,15 @@
  * Output (ndjson, one line per bracketed call, in order):
  *   {"k":<index>,"steps":<instructions>,"stores":[[off,len],...]}            normal
  *   {"k":<index>,"steps":N,"stores":[...],"died":"signal <n>"}               the child faulted inside the call
- * The sequence of stores is what specs/MemAlgTrace.tla compares with the transcription MemAlg.tla.
+ * The sequence of stores is what specs/MemAlgTrace.tla compares with the transcription MemAlg.tla and what
+ * specs/MemStores.tla judges ("never writes a byte outside the destination range").
+ *
+ * A store that writes back the value it finds is invisible to a comparison of memory.  The tracer therefore
+ * plays a CONCURRENT WRITER of the neighbouring bytes: the B marker also carries the call's destination offset d,
+ * length n and source offset s (r10, r8, r9); after every instruction the tracer changes every arena byte within 16
+ * bytes of the destination that is neither in [d, d+n) nor in the source range.  A read-modify-write of a whole
+ * word that straddles the end of the destination (load, merge, store) then puts the OLD neighbour bytes back -
+ * the foreign store is lost - and shows up as a store whose range leaves [d, d+n).
  */
 #define _GNU_SOURCE
 #include <errno.h>
@@ -25,6 +33,11 @@
 #include <sys/user.h>
 #include <sys/wait.h>
 #include <unistd.h>
+
+static int write_mem(pid_t pid, uint64_t addr, void *buf, size_t len) {
+    struct iovec l = {buf, len}, r = {(void *)addr, len};
+    return process_vm_writev(pid, &l, 1, &r, 1, 0) == (ssize_t)len ? 0 : -1;
+}
 
 static int read_mem(pid_t pid, uint64_t addr, void *buf, size_t len) {
     struct iovec l = {buf, len}, r = {(void *)addr, len};
@@ -71,6 +84,8 @@ int main(int argc, char **argv) {
         read_mem(pid, regs.rsi, &tag, 1);
         if (tag != 'B') continue;
         uint64_t base = regs.rdx;
+        long cd = (long)regs.r10, cn = (long)regs.r8, cs = (long)regs.r9;   /* destination offset, length, source offset (-1: none) */
+        long wlo = cd - 16 < 0 ? 0 : cd - 16, whi = cd + cn + 16 > (long)alen ? (long)alen : cd + cn + 16;
         /* let the marker call finish */
         ptrace(PTRACE_SYSCALL, pid, 0, 0);
         waitpid(pid, &st, 0);
@@ -97,6 +112,16 @@ int main(int argc, char **argv) {
                 fprintf(of, "%s[%zu,%zu]", nst ? "," : "", lo, hi - lo + 1);
                 nst++;
                 memcpy(prev, cur, alen);
+            }
+            /* the concurrent writer: change every neighbouring byte that is neither destination nor source */
+            if (cd >= 0 && cn >= 0 && cd + cn <= (long)alen) {
+                for (long o = wlo; o < whi; o++) {
+                    if (o >= cd && o < cd + cn) continue;
+                    if (cs >= 0 && o >= cs && o < cs + cn) continue;
+                    prev[o] = (unsigned char)(prev[o] + 1);
+                }
+                if (cd > wlo) write_mem(pid, base + (uint64_t)wlo, prev + wlo, (size_t)(cd - wlo));
+                if (whi > cd + cn) write_mem(pid, base + (uint64_t)(cd + cn), prev + cd + cn, (size_t)(whi - cd - cn));
             }
         }
         fprintf(of, "],\"steps\":%ld", steps);
